@@ -58,39 +58,41 @@ Section Keyed.
     tag_ok noetag (metag cm) /\ prefix (mbody cm) (bodyf (metag cm)) /\ H cm /\ Tg (metag cm).
 
   (* the message that asks for the next block / acknowledges this one *)
-  Definition next_shape (e : ep) (r : msg) (isb1 : bool) (b : blk) (sm : msg) : Prop :=
+  Definition next_shape (sent : option msg) (r : msg) (isb1 : bool) (b : blk) (sm : msg) : Prop :=
     mtok sm = tk /\ mbody sm = [] /\ mobs sm = None /\
     if isb1 then mcode sm = Continue /\ mb2 sm = None /\ metag sm = None /\
                  exists nb, mb1 sm = Some nb /\ bnum nb = bnum b /\ (0 <= bszx b -> 0 <= bszx nb)
-    else exists sr, get_sent_request e tk = Some sr /\ mcode sm = mcode sr /\ mother sm = mother sr /\
+    else exists sr, sent = Some sr /\ mcode sm = mcode sr /\ mother sm = mother sr /\
                     metag sm = metag sr /\ mb1 sm = None /\
-                    exists nb, mb2 sm = Some nb /\ (0 <= bszx b -> 0 <= bszx nb <= 7 /\ 0 <= bnum nb).
+                    exists nb, mb2 sm = Some nb /\ (0 <= bszx b -> 0 <= bszx nb <= 7 /\ 0 <= bnum nb) /\
+                               (* repaired: only a GET / DELETE is ever repeated from block 0 *)
+                               (bnum nb <> 0 \/ mcode sr = GET \/ mcode sr = DELETE).
 
-  Lemma pr_keyed e r maxszx isb1 b :
+  Lemma pr_keyed_s e r maxszx isb1 b sent :
     0 <= maxszx <= 7 -> (mcode r =? GET) || (mcode r =? DELETE) = false ->
     is_observe_response r = false -> blockopt isb1 r = Some b ->
     coherent bodyf noetag isb1 r -> H r -> Tg (metag r) ->
     (forall cm, tget (receiving e) tk = Some cm -> entry_ok cm) ->
-    let '(e', o, d) := process_received app e r maxszx isb1 in
+    let '(e', o, d) := process_received_s app e r maxszx isb1 sent in
     e' = with_receiving e (receiving e') /\
     (forall k, k <> tk -> tget (receiving e') k = tget (receiving e) k) /\
     (forall cm, tget (receiving e') tk = Some cm -> entry_ok cm) /\
     (nonempty_at (receiving e') tk -> bnum b = 0 \/ nonempty_at (receiving e) tk) /\
-    ((o = Fail /\ d = [] /\ e' = e) \/
+    ((o = Fail /\ d = []) \/
      (exists x, d = [x] /\ o = Out (app tk x) /\ tget (receiving e') tk = None /\
                 mbody x = bodyf (metag x) /\ H x /\ Tg (metag x) /\
                 (x = r \/ blockopt isb1 x = None) /\
                 (bnum b = 0 \/ nonempty_at (receiving e) tk)) \/
-     (exists sm, d = [] /\ o = Out (Some sm) /\ next_shape e r isb1 b sm)).
+     (exists sm, d = [] /\ o = Out (Some sm) /\ next_shape sent r isb1 b sm)).
   Proof.
     intros Hmax Hgd Hobs Hb [Htag Hcoh] Hr Htg Hent.
     pose proof (H_tok r Hr) as Htok.
-    unfold blockopt in Hb, Hcoh. unfold process_received. rewrite Hgd, Hb in *.
+    unfold blockopt in Hb, Hcoh. unfold process_received_s. rewrite Hgd, Hb in *.
     destruct Hcoh as [Hs [Hn [Hsl Hfin]]].
     unfold observe_key. rewrite Hobs. rewrite Htok.
-    destruct (if isb1 then false else match get_sent_request e tk with None => true | Some _ => false end) eqn:Hsent.
+    destruct (if isb1 then false else match sent with None => true | Some _ => false end) eqn:Hsent.
     { split; [symmetry; apply with_receiving_same|]. split; [reflexivity|]. split; [exact Hent|].
-      split; [intros Hne; right; exact Hne|left; repeat split]. }
+      split; [intros Hne; right; exact Hne|left; split; reflexivity]. }
     cbn [negb].
     pose proof (size_pos (bszx b) Hs) as Hsz.
     assert (Hmin : 0 <= Z.min (bszx b) maxszx <= 7) by lia.
@@ -110,11 +112,13 @@ Section Keyed.
          else
            let szx := Z.min szx0 maxszx in
            let psize := blen (mbody cm') in
+           if refuse_restart isb1 (psize / size szx) (sent)
+           then (with_receiving e2 (tdel (receiving e2) tk), Fail, []) else
            let sm :=
              if isb1 then
                {| mcode := Continue; mtok := tk; mb1 := Some {| bszx := szx; bnum := bnum b; bmore := bmore b |};
                   mb2 := None; ms1 := None; ms2 := None; metag := None; mobs := None; mother := []; mbody := [] |}
-             else match get_sent_request e tk with
+             else match sent with
                   | Some sr =>
                     {| mcode := mcode sr; mtok := tk; mb1 := None;
                        mb2 := Some {| bszx := szx; bnum := psize / size szx; bmore := bmore b |};
@@ -126,12 +130,12 @@ Section Keyed.
       (forall k, k <> tk -> tget (receiving e') k = tget (receiving e) k) /\
       (forall cm, tget (receiving e') tk = Some cm -> entry_ok cm) /\
       (nonempty_at (receiving e') tk -> bnum b = 0 \/ nonempty_at (receiving e) tk) /\
-      ((o = Fail /\ d = [] /\ e' = e) \/
+      ((o = Fail /\ d = []) \/
        (exists x, d = [x] /\ o = Out (app tk x) /\ tget (receiving e') tk = None /\
                   mbody x = bodyf (metag x) /\ H x /\ Tg (metag x) /\
                   (x = r \/ blockopt isb1 x = None) /\
                   (bnum b = 0 \/ nonempty_at (receiving e) tk)) \/
-       (exists sm, d = [] /\ o = Out (Some sm) /\ next_shape e r isb1 b sm))).
+       (exists sm, d = [] /\ o = Out (Some sm) /\ next_shape sent r isb1 b sm))).
     { intros cm szx0 Hszx0 [Hcm [Hpre [Hcmh Hcmt]]] Hwhere Hoff.
       pose proof (reasm_ok bodyf noetag cm r (bnum b * size szx0) (bnum b * size (bszx b)) Hcm Hpre Htag Hsl Hoff) as Hre.
       (* whether the buffer was non-empty before, when a non-first block is appended *)
@@ -171,7 +175,16 @@ Section Keyed.
         split; [apply H_block; exact Hcm'h|]. split; [rewrite Het; exact Htg|].
         split; [right; unfold blockopt; destruct isb1; reflexivity|].
         apply Hfirst. exact Ha.
-      - cbn [receiving with_receiving].
+      - cbv zeta.
+        destruct (refuse_restart isb1 (blen (mbody cm') / size (Z.min szx0 maxszx)) (sent)) eqn:Hrefuse.
+        { (* repaired: the restart at block 0 is refused, the entry is released *)
+          cbn [receiving with_receiving].
+          split; [destruct e; reflexivity|].
+          split; [intros k Hk; rewrite tget_tdel_other by congruence; apply tget_tput_other; congruence|].
+          split; [intros c0 Hc0; rewrite tget_tdel_same in Hc0; discriminate|].
+          split; [intros [c0 [Hc0 _]]; rewrite tget_tdel_same in Hc0; discriminate|].
+          left. split; reflexivity. }
+        cbn [receiving with_receiving].
         split; [destruct e; reflexivity|].
         split; [intros k Hk; apply tget_tput_other; congruence|].
         split; [intros c0 Hc0; rewrite tget_tput_same in Hc0; injection Hc0 as <-; exact Hent'|].
@@ -188,11 +201,16 @@ Section Keyed.
         unfold next_shape. destruct isb1.
         + cbn [mtok mbody mobs mcode mb2 metag mb1]. repeat split.
           eexists. split; [reflexivity|]. cbn [bnum bszx]. split; [reflexivity|]. lia.
-        + destruct (get_sent_request e tk) as [sr|] eqn:Hsr; [|discriminate Hsent].
+        + destruct (sent) as [sr|] eqn:Hsr; [|discriminate Hsent].
           cbn [mtok mbody mobs mcode mb2 metag mb1 mother]. repeat split.
-          exists sr. repeat split. eexists. split; [reflexivity|]. cbn [bnum bszx]. intros _.
-          assert (Hq : 0 <= Z.min szx0 maxszx <= 7) by lia.
-          pose proof (size_pos _ Hq). split; [lia|]. apply Z.div_pos; [apply blen_nonneg|lia]. }
+          exists sr. repeat split. eexists. split; [reflexivity|]. cbn [bnum bszx]. split.
+          { intros _. assert (Hq : 0 <= Z.min szx0 maxszx <= 7) by lia.
+            pose proof (size_pos _ Hq). split; [lia|]. apply Z.div_pos; [apply blen_nonneg|lia]. }
+          unfold refuse_restart in Hrefuse. cbn [negb andb] in Hrefuse.
+          destruct (blen (mbody cm') / size (Z.min szx0 maxszx) =? 0) eqn:Hz0;
+            [|left; apply Z.eqb_neq; exact Hz0].
+          cbn [andb] in Hrefuse. apply negb_false_iff, orb_true_iff in Hrefuse.
+          right. destruct Hrefuse as [Hg|Hg]; apply Z.eqb_eq in Hg; [left|right]; exact Hg. }
     destruct (tget (receiving e) tk) as [c|] eqn:Hc.
     - specialize (Hent c eq_refl).
       destruct (bmore b); apply (Hgen c (bszx b) Hs Hent); try (left; reflexivity).
@@ -204,7 +222,7 @@ Section Keyed.
       + destruct (negb (bnum b =? 0)) eqn:Hz.
         * split; [symmetry; apply with_receiving_same|]. split; [reflexivity|].
           split; [intros cm Hcm; rewrite Hc in Hcm; discriminate|].
-          split; [intros Hne; right; exact Hne|left; repeat split].
+          split; [intros Hne; right; exact Hne|left; split; reflexivity].
         * apply negb_false_iff, Z.eqb_eq in Hz.
           split; [symmetry; apply with_receiving_same|]. split; [reflexivity|].
           split; [intros cm Hcm; rewrite Hc in Hcm; discriminate|].
@@ -278,9 +296,6 @@ Section System.
 
   (* a message towards B that stems from A's application: the request, a Block1 part
      of it, or a body-less request for a block of the response *)
-  (* the response of exchange x can be block-wise: some version served so far has 16 bytes or more *)
-  Definition big_resp (V : Z -> Z) (x : exch) : Prop :=
-    exists r v, the_res x = Some r /\ okv V x r v /\ 16 <= blen (res_body r v).
   Definition req_of (V : Z -> Z) (m : msg) : Prop :=
     exists x, In x (cexch c) /\ req_hdr x m /\ metag m = None /\
       (forall b2, mb2 m = Some b2 -> 0 <= bszx b2 /\ 0 <= bnum b2) /\
@@ -288,17 +303,15 @@ Section System.
       | Some b => is_upload (xcode x) = true /\ 0 <= bszx b <= 7 /\ 0 <= bnum b /\
                   slice_at (req_body x) (bnum b * size (bszx b)) (mbody m) /\
                   (bmore b = false -> bnum b * size (bszx b) + blen (mbody m) = blen (req_body x))
-      | None => mbody m = req_body x \/ (mbody m = [] /\ (exists b2, mb2 m = Some b2) /\ big_resp V x)
+      | None => mbody m = req_body x \/ (mbody m = [] /\ exists b2, mb2 m = Some b2 /\ bnum b2 <> 0)
       end.
   Definition okB (V : Z -> Z) (m : msg) : Prop := req_of V m \/ (ctl m /\ mcode m = Incomplete).
 
-  (* what may be handed to the two applications.  B: the exact request body (or, for an
-     upload whose response is block-wise, a body-less request that restarts the response
-     at block 0: the C04 finding); A: the exact representation *)
-  Definition restart_req (V : Z -> Z) (x : exch) (d : msg) : Prop :=
-    is_upload (xcode x) = true /\ mbody d = [] /\ mb1 d = None /\ (exists b2, mb2 d = Some b2 /\ bnum b2 = 0) /\ big_resp V x.
+  (* what may be handed to the two applications.  B: the exact request body (repaired: the
+     body-less request that restarted a block-wise response to a POST/PUT at block 0 is no longer
+     sent); A: the exact representation *)
   Definition delivB_ok (V : Z -> Z) (d : msg) : Prop :=
-    (exists x, In x (cexch c) /\ req_hdr x d /\ (mbody d = req_body x \/ restart_req V x d)) \/
+    (exists x, In x (cexch c) /\ req_hdr x d /\ mbody d = req_body x) \/
     (mbody d = [] /\ mcode d = Incomplete).
   Definition delivA_ok (V : Z -> Z) (d : msg) : Prop :=
     (exists x r v, In x (cexch c) /\ the_res x = Some r /\ okv V x r v /\ resp_hdr x r d /\
@@ -360,21 +373,16 @@ Section System.
     intros HV [x [r [v [Hx [Hr [Hv Hrest]]]]]]. exists x, r, v. split; [exact Hx|]. split; [exact Hr|].
     split; [eapply okv_mono; eassumption|exact Hrest].
   Qed.
-  Lemma big_resp_mono V V' x : Vle V V' -> big_resp V x -> big_resp V' x.
-  Proof. intros HV [r [v [Hr [Hv Hb]]]]. exists r, v. split; [exact Hr|]. split; [eapply okv_mono; eassumption|exact Hb]. Qed.
   Lemma req_of_mono V V' m : Vle V V' -> req_of V m -> req_of V' m.
   Proof.
     intros HV [x [Hx [Hh [He [Hb2 Hb1]]]]]. exists x. split; [exact Hx|]. split; [exact Hh|]. split; [exact He|]. split; [exact Hb2|].
-    destruct (mb1 m); [exact Hb1|]. destruct Hb1 as [Hb|[Hb [Hb' Hbig]]]; [left; exact Hb|right].
-    split; [exact Hb|]. split; [exact Hb'|]. eapply big_resp_mono; eassumption.
+    exact Hb1.
   Qed.
   Lemma okB_mono V V' m : Vle V V' -> okB V m -> okB V' m.
   Proof. intros HV [Hm|Hm]; [left; eapply req_of_mono; eassumption|right; exact Hm]. Qed.
   Lemma delivB_mono V V' d : Vle V V' -> delivB_ok V d -> delivB_ok V' d.
   Proof.
-    intros HV [[x [Hx [Hh Hb]]]|Hd]; [left|right; exact Hd]. exists x. split; [exact Hx|]. split; [exact Hh|].
-    destruct Hb as [Hb|[H1 [H2 [H3 [H4 H5]]]]]; [left; exact Hb|right].
-    split; [exact H1|]. split; [exact H2|]. split; [exact H3|]. split; [exact H4|]. eapply big_resp_mono; eassumption.
+    intros HV [[x [Hx [Hh Hb]]]|Hd]; [left|right; exact Hd]. exists x. split; [exact Hx|]. split; [exact Hh|]. exact Hb.
   Qed.
   Lemma okA_mono V V' m : Vle V V' -> okA V m -> okA V' m.
   Proof. intros HV [Hm|Hm]; [left; eapply resp_of_mono; eassumption|right; exact Hm]. Qed.
@@ -484,13 +492,18 @@ Section System.
     apply sendB_tput; auto.
   Qed.
 
+  Lemma pr_noblock_s app e r mx isb1 sent :
+    blockopt isb1 r = None -> (mcode r =? GET) || (mcode r =? DELETE) = false ->
+    process_received_s app e r mx isb1 sent =
+    if isb1 && match mb2 r with Some b2 => negb (bnum b2 =? 0) | None => false end then (e, Fail, [])
+    else (e, Out (app (mtok r) r), [r]).
+  Proof. intros Hb Hgd. unfold process_received_s. unfold blockopt in Hb. rewrite Hgd, Hb. reflexivity. Qed.
   Lemma pr_noblock app e r mx isb1 :
     blockopt isb1 r = None -> (mcode r =? GET) || (mcode r =? DELETE) = false ->
     process_received app e r mx isb1 =
     if isb1 && match mb2 r with Some b2 => negb (bnum b2 =? 0) | None => false end then (e, Fail, [])
     else (e, Out (app (mtok r) r), [r]).
-  Proof. intros Hb Hgd. unfold process_received. unfold blockopt in Hb. rewrite Hgd, Hb. reflexivity. Qed.
-
+  Proof. intros Hb Hgd. unfold process_received. apply pr_noblock_s; assumption. Qed.
   Lemma code_cases x : In x (cexch c) -> xcode x = GET \/ xcode x = POST \/ xcode x = PUT \/ xcode x = DELETE.
   Proof. intros Hx. destruct (wf_exch c Hwf x Hx) as [_ [Hc _]]. unfold GET, POST, PUT, DELETE in *. lia. Qed.
 
@@ -505,20 +518,20 @@ Section System.
     - rewrite Hother in Hg by exact Hne. exact (Hr _ _ Hg).
   Qed.
 
-  Lemma handle_received_B vs V e m :
+  Lemma handle_received_B_s vs V e m sent :
     vers_ok vs -> Vle (ver vs) V -> invB V e -> okB V m ->
-    let '(e', o, d) := handle_received (app_b c vs) e m in
+    let '(e', o, d) := handle_received_s (app_b c vs) e m sent in
     invB V e' /\ (forall sm, o = Out (Some sm) -> okA V sm) /\ (forall x, In x d -> delivB_ok V x).
   Proof.
     intros Hvs HV Hinv Hm. pose proof Hinv as [He1 [He2 [Hs Hr]]].
     assert (Hszx : 0 <= eszx e <= 7) by (rewrite He1; apply (wf_szxB c Hwf)).
     destruct Hm as [[x [Hx [Hh [Het [Hb2 Hb1]]]]]|[[Hnil [Hmb2 [Hmobs Hcode]]] Hinc]].
     2: { (* 4.08 from A: handed to the application, which ignores it *)
-      unfold handle_received. rewrite Hinc.
+      unfold handle_received_s. rewrite Hinc.
       replace ((Incomplete =? 0) || ((225 <=? Incomplete) && (Incomplete <=? 229))) with false by reflexivity.
       replace ((Incomplete =? GET) || (Incomplete =? DELETE)) with false by reflexivity.
       replace (is_upload Incomplete) with false by reflexivity.
-      rewrite pr_noblock by (unfold blockopt; try rewrite Hinc; try exact Hmb2; reflexivity).
+      rewrite pr_noblock_s by (unfold blockopt; try rewrite Hinc; try exact Hmb2; reflexivity).
       cbn [andb]. rewrite app_b_incomplete by exact Hinc. cbn [start_sending].
       split; [exact Hinv|]. split; [discriminate|]. intros y [<-|[]]. right. split; assumption. }
     pose proof Hh as [Ht [Hc [Ho Hob]]].
@@ -532,7 +545,7 @@ Section System.
       by (destruct (code_cases x Hx) as [Hcx|[Hcx|[Hcx|Hcx]]]; rewrite Hcx; reflexivity).
     assert (Hupgd : is_upload (xcode x) = negb ((xcode x =? GET) || (xcode x =? DELETE)))
       by (destruct (code_cases x Hx) as [Hcx|[Hcx|[Hcx|Hcx]]]; rewrite Hcx; reflexivity).
-    unfold handle_received. rewrite Hc, Hsig.
+    unfold handle_received_s. rewrite Hc, Hsig.
     destruct ((xcode x =? GET) || (xcode x =? DELETE)) eqn:Hgd; cbn [negb] in Hupgd.
     - (* GET / DELETE: the application sees the request itself *)
       assert (Hfit : 0 <= fit (mb2 m) (eszx e) <= 7) by (apply fit_range; [exact Hszx|intros b Hb; apply (Hb2 b Hb)]).
@@ -543,7 +556,7 @@ Section System.
         destruct (mcode wm =? Content); [apply (Hb2 b eq_refl)|apply Hstart]. }
       { destruct (app_b c vs (mtok m) m) as [wm|]; [|apply Hstart]. destruct (mb2 m) as [b|] eqn:Eb; [|apply Hstart].
         destruct (mcode wm =? Content); [apply (Hb2 b eq_refl)|apply Hstart]. }
-      split; [exact Hi|]. split; [exact Ho'|]. intros y [<-|[]]. left. exists x. split; [exact Hx|]. split; [exact Hh|]. left.
+      split; [exact Hi|]. split; [exact Ho'|]. intros y [<-|[]]. left. exists x. split; [exact Hx|]. split; [exact Hh|].
       specialize (Hlen0 Hupgd).
       destruct (mb1 m); [destruct Hb1 as [Hup _]; congruence|]. destruct Hb1 as [Hb|[Hb _]]; [exact Hb|].
       rewrite Hb. unfold req_body. rewrite Hlen0. reflexivity.
@@ -562,22 +575,22 @@ Section System.
                        entry_ok (fun _ => req_body x) true (req_hdr x) (fun t => t = None) cm).
         { intros cm Hg. destruct (Hr _ _ Hg) as [x' [Hx' [Hk' [_ Hent]]]].
           rewrite (same_tok x' x Hx' Hx Hk') in Hent. exact Hent. }
-        pose proof (pr_keyed (fun _ => req_body x) true (req_hdr x) (fun t => t = None) (xtok x)
+        pose proof (pr_keyed_s (fun _ => req_body x) true (req_hdr x) (fun t => t = None) (xtok x)
                       (fun m0 Hm0 => proj1 Hm0) (req_hdr_body x) (req_hdr_etag x) (req_hdr_block x) (app_b c vs)
-                      e m (fit (Some b) (eszx e)) true b Hfit Hgd' Hobs Eb1 Hcoh Hh Het Hent) as Hpr.
-        destruct (process_received (app_b c vs) e m (fit (Some b) (eszx e)) true) as [[e1 o] d].
+                      e m (fit (Some b) (eszx e)) true b sent Hfit Hgd' Hobs Eb1 Hcoh Hh Het Hent) as Hpr.
+        destruct (process_received_s (app_b c vs) e m (fit (Some b) (eszx e)) true sent) as [[e1 o] d].
         destruct Hpr as (Hfr & Hoth & Hkey & _ & Hcases).
         assert (Hinv1 : invB V e1).
         { rewrite Hfr. split; [exact He1|]. split; [exact He2|]. split; [exact Hs|]. cbn [receiving with_receiving].
           apply (recvB_update e (receiving e1) x Hx Hupgd Hr Hoth Hkey). }
         assert (Hemax : emax e = emax e1) by (rewrite Hfr; reflexivity).
-        destruct Hcases as [[-> [-> ->]]|[(y & -> & -> & _ & Hby & Hhy & _ & _ & _)|(sm & -> & -> & Hsm)]].
-        * split; [exact Hinv|]. split; [discriminate|intros y []].
+        destruct Hcases as [[-> ->]|[(y & -> & -> & _ & Hby & Hhy & _ & _ & _)|(sm & -> & -> & Hsm)]].
+        * split; [exact Hinv1|]. split; [discriminate|intros y []].
         * rewrite Hemax.
           match goal with |- context [start_sending e1 ?w ?mx (emax e1) ?b] =>
             pose proof (start_sending_B V e1 w mx b Hinv1) as Hss; destruct (start_sending e1 w mx (emax e1) b) as [e' o'] end.
           destruct Hss as [Hi [_ Ho']]; [rewrite <- Ht; apply (Hans y Hhy)|exact Hfit|apply Hstart|apply Hstart|].
-          split; [exact Hi|]. split; [exact Ho'|]. intros z [<-|[]]. left. exists x. split; [exact Hx|]. split; [exact Hhy|]. left; exact Hby.
+          split; [exact Hi|]. split; [exact Ho'|]. intros z [<-|[]]. left. exists x. split; [exact Hx|]. split; [exact Hhy|]. exact Hby.
         * rewrite Hemax.
           match goal with |- context [start_sending e1 ?w ?mx (emax e1) ?b] =>
             pose proof (start_sending_B V e1 w mx b Hinv1) as Hss; destruct (start_sending e1 w mx (emax e1) b) as [e' o'] end.
@@ -586,7 +599,7 @@ Section System.
           destruct Hsm as (_ & Hsb & Hso & Hsc & Hs2 & _ & nb & Hnb & Hnn & Hns).
           split; [exact Hsb|]. split; [exact Hs2|]. split; [exact Hso|]. left. split; [exact Hsc|].
           intros b' Hb'. rewrite Hnb in Hb'. injection Hb' as <-. split; [apply Hns; lia|lia].
-      + rewrite pr_noblock by (unfold blockopt; assumption).
+      + rewrite pr_noblock_s by (unfold blockopt; assumption).
         cbn [andb].
         destruct (match mb2 m with Some b2 => negb (bnum b2 =? 0) | None => false end) eqn:Hnz.
         * split; [exact Hinv|]. split; [discriminate|intros y []].
@@ -594,11 +607,15 @@ Section System.
             pose proof (start_sending_B V e w mx b Hinv (Hans m Hh) Hfit) as Hss; destruct (start_sending e w mx (emax e) b) as [e' o] end.
           destruct Hss as [Hi [_ Ho']]; [apply Hstart|apply Hstart|].
           split; [exact Hi|]. split; [exact Ho'|]. intros y [<-|[]]. left. exists x. split; [exact Hx|]. split; [exact Hh|].
-          destruct Hb1 as [Hb|[Hb [[b2 Hb2'] Hbig]]]; [left; exact Hb|right].
-          split; [exact Hupgd|]. split; [exact Hb|]. split; [exact Eb1|]. split; [|exact Hbig]. exists b2. split; [exact Hb2'|].
-          rewrite Hb2' in Hnz. apply negb_false_iff, Z.eqb_eq in Hnz. exact Hnz.
+          destruct Hb1 as [Hb|[Hb [b2 [Hb2' Hb2nz]]]]; [exact Hb|exfalso].
+          rewrite Hb2' in Hnz. apply negb_false_iff, Z.eqb_eq in Hnz. contradiction.
   Qed.
 
+  Lemma handle_received_B vs V e m :
+    vers_ok vs -> Vle (ver vs) V -> invB V e -> okB V m ->
+    let '(e', o, d) := handle_received (app_b c vs) e m in
+    invB V e' /\ (forall sm, o = Out (Some sm) -> okA V sm) /\ (forall x, In x d -> delivB_ok V x).
+  Proof. intros. unfold handle_received. apply handle_received_B_s; assumption. Qed.
   Lemma ctl_incomplete t : ctl (entity_incomplete t).
   Proof. unfold ctl, entity_incomplete; cbn. repeat split. right. split; reflexivity. Qed.
 
@@ -735,22 +752,25 @@ Section System.
     (resp_code z =? GET) || (resp_code z =? DELETE) = false.
   Proof. rc_cases z; split; reflexivity. Qed.
 
-  Lemma handle_received_A V e m :
-    invA V e -> okA V m ->
-    let '(e', o, d) := handle_received app_a e m in
+  (* [sent]: what getSentRequest found for the token - the request of the exchange, if anything *)
+  Definition sent_okA (sent : option msg) (tok : Z) : Prop :=
+    forall sr, sent = Some sr -> forall x, In x (cexch c) -> xtok x = tok -> sr = set_body (request_of x) [].
+  Lemma handle_received_A_s V e m sent :
+    invA V e -> okA V m -> sent_okA sent (mtok m) ->
+    let '(e', o, d) := handle_received_s app_a e m sent in
     invA V e' /\ (forall sm, o = Out (Some sm) -> okB V sm) /\ (forall x, In x d -> delivA_ok V x).
   Proof.
-    intros Hinv Hm. pose proof Hinv as [He1 [He2 [He3 [Hs Hr]]]].
+    intros Hinv Hm Hsentok. pose proof Hinv as [He1 [He2 [He3 [Hs Hr]]]].
     assert (Hszx : 0 <= eszx e <= 7) by (rewrite He1; apply (wf_szxA c Hwf)).
     assert (Hstart : 0 <= bszx {| bszx := eszx e; bnum := 0; bmore := true |} /\ 0 <= bnum {| bszx := eszx e; bnum := 0; bmore := true |})
       by (cbn [bszx bnum]; lia).
     assert (Hnone : let '(e', o) := start_sending e None (fit (mb2 m) (eszx e)) (emax e) {| bszx := eszx e; bnum := 0; bmore := true |} in
                     (e', o) = (e, Out None)) by reflexivity.
-    unfold handle_received.
+    unfold handle_received_s.
     destruct Hm as [Hres|Hctl].
     2: { destruct (ctl_codes m Hctl) as [-> [Hgd ->]]. rewrite Hgd.
          destruct Hctl as [Hnil [Hb2 [Hob Hcode]]].
-         rewrite pr_noblock by (unfold blockopt; assumption). cbn [andb app_a start_sending].
+         rewrite pr_noblock_s by (unfold blockopt; assumption). cbn [andb app_a start_sending].
          split; [exact Hinv|]. split; [discriminate|]. intros y [<-|[]]. right. split; [exact Hnil|].
          destruct Hcode as [[Hc _]|[Hc _]]; auto. }
     pose proof Hres as [x [r [v [Hx [Hrs [Hv [Hh [Het Hbody]]]]]]]].
@@ -758,7 +778,7 @@ Section System.
     rewrite Hc. destruct (resp_codes (xcode x)) as [-> Hgd]. rewrite Hgd, resp_not_upload. cbv iota.
     assert (Hgd' : (mcode m =? GET) || (mcode m =? DELETE) = false) by (rewrite Hc; exact Hgd).
     destruct (mb2 m) as [b|] eqn:Eb2.
-    2: { rewrite pr_noblock by (unfold blockopt; assumption). cbn [andb app_a start_sending].
+    2: { rewrite pr_noblock_s by (unfold blockopt; assumption). cbn [andb app_a start_sending].
          split; [exact Hinv|]. split; [discriminate|]. intros y [<-|[]]. left. exists x, r, v.
          split; [exact Hx|]. split; [exact Hrs|]. split; [exact Hv|]. split; [exact Hh|]. split; [exact Het|exact Hbody]. }
     destruct Hbody as [Hbs [Hbn [Hsl [Hfin Hbig]]]].
@@ -773,17 +793,17 @@ Section System.
                    entry_ok (bodyfA r) (negb (retag r)) (resp_hdr x r) (TgA V x r) cm).
     { intros cm Hg. destruct (Hr _ _ Hg) as [x' [r' [Hx' [Hk' [Hr' Hent]]]]].
       pose proof (same_tok x' x Hx' Hx Hk') as ->. rewrite Hrs in Hr'. injection Hr' as <-. exact Hent. }
-    pose proof (pr_keyed (bodyfA r) (negb (retag r)) (resp_hdr x r) (TgA V x r) (xtok x)
+    pose proof (pr_keyed_s (bodyfA r) (negb (retag r)) (resp_hdr x r) (TgA V x r) (xtok x)
                   (fun m0 Hm0 => proj1 Hm0) (resp_hdr_body x r) (resp_hdr_etag x r) (resp_hdr_block x r) app_a
-                  e m (fit (Some b) (eszx e)) false b Hfit Hgd' Hobs Eb2 Hcoh Hh Htg Hent) as Hpr.
-    destruct (process_received app_a e m (fit (Some b) (eszx e)) false) as [[e1 o] d].
+                  e m (fit (Some b) (eszx e)) false b sent Hfit Hgd' Hobs Eb2 Hcoh Hh Htg Hent) as Hpr.
+    destruct (process_received_s app_a e m (fit (Some b) (eszx e)) false sent) as [[e1 o] d].
     destruct Hpr as (Hfr & Hoth & Hkey & _ & Hcases).
     assert (Hinv1 : invA V e1).
     { rewrite Hfr. split; [exact He1|]. split; [exact He2|]. split; [exact He3|]. split; [exact Hs|]. cbn [receiving with_receiving].
       apply (recvA_update V e (receiving e1) x r Hx Hrs Hr Hoth Hkey). }
     assert (Hemax : emax e = emax e1) by (rewrite Hfr; reflexivity).
-    destruct Hcases as [[-> [-> ->]]|[(y & -> & -> & _ & Hby & Hhy & [vy [Hvy Hey]] & _ & _)|(sm & -> & -> & Hsm)]].
-    - split; [exact Hinv|]. split; [discriminate|intros y []].
+    destruct Hcases as [[-> ->]|[(y & -> & -> & _ & Hby & Hhy & [vy [Hvy Hey]] & _ & _)|(sm & -> & -> & Hsm)]].
+    - split; [exact Hinv1|]. split; [discriminate|intros y []].
     - cbn [app_a start_sending]. split; [exact Hinv1|]. split; [discriminate|]. intros z [<-|[]]. left.
       exists x, r, vy. split; [exact Hx|]. split; [exact Hrs|]. split; [exact Hvy|]. split; [exact Hhy|]. split; [exact Hey|].
       rewrite Hby, Hey. eapply bodyfA_etag. exact Hvy.
@@ -792,18 +812,32 @@ Section System.
         pose proof (start_sending_A V e1 w mx b0 Hinv1) as Hss; destruct (start_sending e1 w mx (emax e1) b0) as [e' o'] end.
       destruct Hss as [Hi [_ Ho']]; [|exact Hfit|apply Hstart|apply Hstart|split; [exact Hi|split; [exact Ho'|intros z []]]].
       intros wm E. injection E as <-. left.
-      destruct Hsm as (Hst & Hsb & Hso & sr & Hsr & Hsc & Hsot & Hset & Hs1 & nb & Hnb & Hnbb).
+      destruct Hsm as (Hst & Hsb & Hso & sr & Hsr & Hsc & Hsot & Hset & Hs1 & nb & Hnb & Hnbb & Hnb0).
       split; [exact Hsb|]. left. exists x. split; [exact Hx|].
-      assert (Hsrx : sr = set_body (request_of x) []).
-      { unfold get_sent_request in Hsr. destruct (tget (sending e) (xtok x)) as [m0|] eqn:Hm0.
-        - destruct (Hs _ _ Hm0) as [x' [Hx' [Hk' ->]]]. rewrite (same_tok x' x Hx' Hx Hk') in Hsr. injection Hsr as <-. reflexivity.
-        - rewrite He3, (wf_out c Hwf x Hx) in Hsr. discriminate. }
+      assert (Hsrx : sr = set_body (request_of x) []) by (apply (Hsentok sr Hsr x Hx); symmetry; exact Ht).
       subst sr. cbn [mcode mother metag set_body request_of] in *.
       split; [repeat split; assumption|]. split; [exact Hset|].
       split; [intros b2 E; rewrite Hnb in E; injection E as <-; destruct (Hnbb ltac:(lia)) as [? ?]; lia|].
-      rewrite Hs1. right. split; [exact Hsb|]. split; [exists nb; exact Hnb|]. exists r, v. split; [exact Hrs|]. split; [exact Hv|exact Hbig].
+      rewrite Hs1. destruct Hnb0 as [Hnz|Hgd0].
+      + right. split; [exact Hsb|]. exists nb. split; [exact Hnb|exact Hnz].
+      + (* the request is a GET / DELETE: it has no body, repeating it from block 0 is the request itself *)
+        left. rewrite Hsb. unfold req_body.
+        destruct (wf_exch c Hwf x Hx) as [_ [_ [_ [_ Hlen0]]]].
+        rewrite Hlen0; [reflexivity|]. destruct Hgd0 as [Hg|Hg]; rewrite Hg; reflexivity.
   Qed.
 
+  Lemma sent_okA_get V e tok : invA V e -> sent_okA (get_sent_request e tok) tok.
+  Proof.
+    intros [_ [_ [He3 [Hs _]]]] sr Hsr x Hx Hk. subst tok.
+    unfold get_sent_request in Hsr. destruct (tget (sending e) (xtok x)) as [m0|] eqn:Hm0.
+    - destruct (Hs _ _ Hm0) as [x' [Hx' [Hk' ->]]]. rewrite (same_tok x' x Hx' Hx Hk') in Hsr. injection Hsr as <-. reflexivity.
+    - rewrite He3, (wf_out c Hwf x Hx) in Hsr. discriminate.
+  Qed.
+  Lemma handle_received_A V e m :
+    invA V e -> okA V m ->
+    let '(e', o, d) := handle_received app_a e m in
+    invA V e' /\ (forall sm, o = Out (Some sm) -> okB V sm) /\ (forall x, In x d -> delivA_ok V x).
+  Proof. intros Hinv Hm. unfold handle_received. apply handle_received_A_s; [exact Hinv|exact Hm|eapply sent_okA_get; exact Hinv]. Qed.
   Lemma okB_incomplete V t : okB V (entity_incomplete t).
   Proof. right. split; [apply ctl_incomplete|reflexivity]. Qed.
 
@@ -1092,8 +1126,7 @@ Section System.
      delivery, duplication, loss, replay of anything ever sent, resource changes (of
      resources that carry an ETag), time-outs, expiry sweeps, restarts - every message
      handed to B's application belongs to an exchange A's application started, has its
-     code and options, and carries exactly its body (or is the body-less request that
-     restarts a block-wise response to a POST/PUT: the finding); every message handed to
+     code and options, and carries exactly its body; every message handed to
      A's application is body-less, or has the code / options / ETag of one version of
      the resource of its exchange and exactly that version's body. *)
   Theorem exchange_safety es :
@@ -1138,25 +1171,18 @@ Section System.
   Lemma blen_gen_body salt n : blen (gen_body salt n) = Z.of_nat n.
   Proof. unfold blen. rewrite gen_body_length. reflexivity. Qed.
 
-  (* a body-less request that restarts a block-wise response to a POST/PUT, as observed *)
-  Definition restart_pm (d : pm) : Prop :=
-    plen d = 0 /\ pb1 d = None /\ (exists s mo, pb2 d = Some (s, 0, mo)) /\ is_upload (pcode d) = true.
-
   Lemma delivB_class es d :
-    delivB_ok (bumps es) d -> delivery_class c es 1 (proj d) = 0%N \/ restart_pm (proj d).
+    delivB_ok (bumps es) d -> delivery_class c es 1 (proj d) = 0%N.
   Proof.
     intros [[x [Hx [[Ht [Hc [Ho _]]] Hb]]]|[Hnil Hc]].
-    2: { left. unfold delivery_class, proj. cbn [pcode plen Z.eqb]. rewrite Hc, Hnil. reflexivity. }
+    2: { unfold delivery_class, proj. cbn [pcode plen Z.eqb]. rewrite Hc, Hnil. reflexivity. }
     destruct (wf_exch c Hwf x Hx) as [_ [Hcode [_ [Hlen _]]]].
-    destruct Hb as [Hb|[Hup [Hnil [Hb1 [[b2 [Hb2 Hn]] _]]]]].
-    - left. unfold delivery_class, proj. cbn [pcode plen ptok psum pother Z.eqb].
-      rewrite Hc, Ht, Ho, Hb. unfold is_request.
-      replace ((GET <=? xcode x) && (xcode x <=? DELETE)) with true
-        by (symmetry; apply andb_true_iff; split; apply Z.leb_le; lia).
-      rewrite find_exch_some by exact Hx. unfold req_body. rewrite blen_gen_body, Z2Nat.id by exact Hlen.
-      rewrite !Z.eqb_refl, pair_list_refl. reflexivity.
-    - right. unfold restart_pm, proj. cbn [plen pb1 pb2 pcode proj_blk]. rewrite Hnil, Hb1, Hb2, Hc. cbn [proj_blk].
-      split; [reflexivity|]. split; [reflexivity|]. split; [|exact Hup]. rewrite Hn. eexists. eexists. reflexivity.
+    unfold delivery_class, proj. cbn [pcode plen ptok psum pother Z.eqb].
+    rewrite Hc, Ht, Ho, Hb. unfold is_request.
+    replace ((GET <=? xcode x) && (xcode x <=? DELETE)) with true
+      by (symmetry; apply andb_true_iff; split; apply Z.leb_le; lia).
+    rewrite find_exch_some by exact Hx. unfold req_body. rewrite blen_gen_body, Z2Nat.id by exact Hlen.
+    rewrite !Z.eqb_refl, pair_list_refl. reflexivity.
   Qed.
 
   Lemma delivA_class es d : delivA_ok (bumps es) d -> delivery_class c es 0 (proj d) = 0%N.
@@ -1180,55 +1206,18 @@ Section System.
 
   (* C04 safety over all fault scripts, in the terms of the specification: on the
      model's trace of ANY script every delivery has class 0 (exact body, code and
-     options preserved, known token), except the restart request of the finding *)
+     options preserved, known token) - without exception since the client no longer
+     restarts the response of a POST/PUT at block 0 *)
   Theorem exchange_safety_spec es :
     Forall bump_ok es ->
-    Forall (fun o => Forall (fun d => delivery_class c es (o_side o) d = 0%N \/ (o_side o = 1 /\ restart_pm d)) (o_deliv o))
-           (model_obs c es).
+    Forall (fun o => Forall (fun d => delivery_class c es (o_side o) d = 0%N) (o_deliv o)) (model_obs c es).
   Proof.
     intros Hb. pose proof (exchange_safety es Hb) as Hs. unfold model_obs.
     apply Forall_forall. intros o Ho. apply in_map_iff in Ho. destruct Ho as [mo [<- Hmo]].
     rewrite Forall_forall in Hs. specialize (Hs mo Hmo).
     apply Forall_forall. intros d Hd. cbn [proj_mob o_deliv o_side] in *. apply in_map_iff in Hd. destruct Hd as [md [<- Hmd]].
     destruct Hs as [[Hside Hs]|[[Hside Hs]|Hs]].
-    - rewrite Hside. destruct (delivB_class es md (Hs md Hmd)) as [H0|H1]; [left; exact H0|right; split; [reflexivity|exact H1]].
-    - rewrite Hside. left. apply delivA_class. apply Hs; exact Hmd.
-    - rewrite Hs in Hmd. destruct Hmd.
-  Qed.
-
-  (* no response to a POST/PUT is ever block-wise: every version served during the
-     script is shorter than the smallest block *)
-  Definition small_upload_responses (es : list ev) : Prop :=
-    forall x r v, In x (cexch c) -> is_upload (xcode x) = true -> the_res x = Some r ->
-                  0 <= v <= bumps es (xpath x) -> blen (res_body r v) < 16.
-
-  Lemma delivB_class_exact es V d :
-    delivB_ok V d -> (forall x, In x (cexch c) -> ~ restart_req V x d) -> delivery_class c es 1 (proj d) = 0%N.
-  Proof.
-    intros [[x [Hx [[Ht [Hc [Ho _]]] Hb]]]|[Hnil Hc]] Hno.
-    2: { unfold delivery_class, proj. cbn [pcode plen Z.eqb]. rewrite Hc, Hnil. reflexivity. }
-    destruct (wf_exch c Hwf x Hx) as [_ [Hcode [_ [Hlen _]]]].
-    destruct Hb as [Hb|Hre]; [|exfalso; exact (Hno x Hx Hre)].
-    unfold delivery_class, proj. cbn [pcode plen ptok psum pother Z.eqb].
-    rewrite Hc, Ht, Ho, Hb. unfold is_request.
-    replace ((GET <=? xcode x) && (xcode x <=? DELETE)) with true
-      by (symmetry; apply andb_true_iff; split; apply Z.leb_le; lia).
-    rewrite find_exch_some by exact Hx. unfold req_body. rewrite blen_gen_body, Z2Nat.id by exact Hlen.
-    rewrite !Z.eqb_refl, pair_list_refl. reflexivity.
-  Qed.
-
-  (* ... and when no response to an upload is block-wise, without exception *)
-  Theorem exchange_safety_spec_exact es :
-    Forall bump_ok es -> small_upload_responses es ->
-    Forall (fun o => Forall (fun d => delivery_class c es (o_side o) d = 0%N) (o_deliv o)) (model_obs c es).
-  Proof.
-    intros Hb Hsmall. pose proof (exchange_safety es Hb) as Hs. unfold model_obs.
-    apply Forall_forall. intros o Ho. apply in_map_iff in Ho. destruct Ho as [mo [<- Hmo]].
-    rewrite Forall_forall in Hs. specialize (Hs mo Hmo).
-    apply Forall_forall. intros d Hd. cbn [proj_mob o_deliv o_side] in *. apply in_map_iff in Hd. destruct Hd as [md [<- Hmd]].
-    destruct Hs as [[Hside Hs]|[[Hside Hs]|Hs]].
-    - rewrite Hside. apply (delivB_class_exact es (bumps es) md (Hs md Hmd)).
-      intros x Hx [Hup [_ [_ [_ [r [v [Hr [[Hv _] Hbig]]]]]]]]. specialize (Hsmall x r v Hx Hup Hr Hv). lia.
+    - rewrite Hside. apply delivB_class. apply Hs; exact Hmd.
     - rewrite Hside. apply delivA_class. apply Hs; exact Hmd.
     - rewrite Hs in Hmd. destruct Hmd.
   Qed.
@@ -1294,19 +1283,19 @@ Section System.
     apply H1. intros Hnil. rewrite Hnil in E. cbn in E. nia.
   Qed.
 
-  Lemma pr_once app e r mx isb1 :
+  Lemma pr_once_s app e r mx isb1 sent :
     is_observe_response r = false -> (mcode r =? GET) || (mcode r =? DELETE) = false ->
     (forall cm, tget (receiving e) (mtok r) = Some cm -> mtok cm = mtok r) ->
-    let '(e', _, d) := process_received app e r mx isb1 in
+    let '(e', _, d) := process_received_s app e r mx isb1 sent in
     once_post e e' (mtok r) (first_blk (blockopt isb1 r)) d.
   Proof.
     intros Hobs Hgd Hkey.
     destruct (blockopt isb1 r) as [b|] eqn:Hb.
-    2: { rewrite pr_noblock by assumption.
+    2: { rewrite pr_noblock_s by assumption.
          destruct (isb1 && _); [apply once_post_quiet|].
          split; [reflexivity|]. split; [intros x [<-|[]]; reflexivity|]. right; left. exists r. cbn. auto. }
-    unfold process_received. unfold blockopt in Hb. rewrite Hgd, Hb. unfold observe_key. rewrite Hobs.
-    destruct (if isb1 then false else match get_sent_request e (mtok r) with None => true | Some _ => false end);
+    unfold process_received_s. unfold blockopt in Hb. rewrite Hgd, Hb. unfold observe_key. rewrite Hobs.
+    destruct (if isb1 then false else match sent with None => true | Some _ => false end);
       [apply once_post_quiet|].
     cbn [negb first_blk].
     assert (Hgen : forall cm szx0,
@@ -1322,11 +1311,13 @@ Section System.
          else
            let szx := Z.min szx0 mx in
            let psize := blen (mbody cm') in
+           if refuse_restart isb1 (psize / size szx) (sent)
+           then (with_receiving e2 (tdel (receiving e2) (mtok r)), Fail, []) else
            let sm :=
              if isb1 then
                {| mcode := Continue; mtok := mtok r; mb1 := Some {| bszx := szx; bnum := bnum b; bmore := bmore b |};
                   mb2 := None; ms1 := None; ms2 := None; metag := None; mobs := None; mother := []; mbody := [] |}
-             else match get_sent_request e (mtok r) with
+             else match sent with
                   | Some sr =>
                     {| mcode := mcode sr; mtok := mtok r; mb1 := None;
                        mb2 := Some {| bszx := szx; bnum := psize / size szx; bmore := bmore b |};
@@ -1351,7 +1342,11 @@ Section System.
         right; right. eexists. split; [reflexivity|].
         split; [destruct (mtok cm' =? mtok r); cbn [receiving with_receiving with_sending]; apply tget_tdel_same|].
         destruct (Hap eq_refl) as [Hz|Hn]; [left; exact Hz|right; apply Hbefore; exact Hn].
-      - cbn [receiving with_receiving].
+      - cbv zeta. match goal with |- context [refuse_restart ?a ?n ?q] => destruct (refuse_restart a n q) end.
+        { unfold once_post. cbn [receiving with_receiving].
+          split; [intros k Hk; rewrite tget_tdel_other by congruence; apply tget_tput_other; congruence|]. split; [intros x []|].
+          left. split; [reflexivity|]. intros [c0 [Hc0 _]]. rewrite tget_tdel_same in Hc0. discriminate. }
+        cbn [receiving with_receiving].
         split; [intros k Hk; apply tget_tput_other; congruence|]. split; [intros x []|].
         left. split; [reflexivity|]. intros [c0 [Hc0 Hn0]]. cbn [receiving with_receiving] in Hc0. rewrite tget_tput_same in Hc0. injection Hc0 as <-.
         destruct (Hne Hn0) as [Hz|Hn]; [left; exact Hz|right; apply Hbefore; exact Hn]. }
@@ -1363,9 +1358,44 @@ Section System.
         apply Z.eqb_eq in Hz.
         split; [reflexivity|]. split; [intros x [<-|[]]; reflexivity|]. right; left. exists r. auto.
   Qed.
+  Lemma pr_once app e r mx isb1 :
+    is_observe_response r = false -> (mcode r =? GET) || (mcode r =? DELETE) = false ->
+    (forall cm, tget (receiving e) (mtok r) = Some cm -> mtok cm = mtok r) ->
+    let '(e', _, d) := process_received app e r mx isb1 in
+    once_post e e' (mtok r) (first_blk (blockopt isb1 r)) d.
+  Proof. intros. unfold process_received. apply pr_once_s; assumption. Qed.
 
   (* the relevant Block option of a message, by its code *)
   Definition fb (r : msg) : Prop := is_plain_code (mcode r) = true \/ first_blk (blockopt (is_upload (mcode r)) r).
+
+  Lemma handle_received_once_s app e r sent :
+    is_observe_response r = false ->
+    (forall cm, tget (receiving e) (mtok r) = Some cm -> mtok cm = mtok r) ->
+    let '(e', _, d) := handle_received_s app e r sent in once_post e e' (mtok r) (fb r) d.
+  Proof.
+    intros Hobs Hkey.
+    assert (Hf1 : (mcode r =? 0) || ((225 <=? mcode r) && (mcode r <=? 229)) = true -> fb r).
+        { intros Hs. left. unfold is_plain_code. rewrite Hs. reflexivity. }
+        assert (Hf2 : (mcode r =? GET) || (mcode r =? DELETE) = true -> fb r).
+        { intros Hs. left. unfold is_plain_code. rewrite <- orb_assoc, Hs. apply orb_true_r. }
+        assert (Hf3 : first_blk (blockopt (is_upload (mcode r)) r) -> fb r) by (intros Hs; right; exact Hs).
+        revert Hf1 Hf2 Hf3. generalize (fb r). intros F Hf1 Hf2 Hf3.
+        unfold handle_received_s.
+        destruct ((mcode r =? 0) || ((225 <=? mcode r) && (mcode r <=? 229))) eqn:Hsig.
+        { split; [reflexivity|]. split; [intros x [<-|[]]; reflexivity|]. right; left. exists r. auto. }
+        destruct ((mcode r =? GET) || (mcode r =? DELETE)) eqn:Hgd.
+        { match goal with |- context [start_sending ?a ?b ?c ?d ?f] =>
+            pose proof (start_sending_receiving a b c d f) as Hr'; destruct (start_sending a b c d f) as [e' o] end.
+          cbn [fst] in Hr'. split; [intros k _; rewrite Hr'; reflexivity|]. split; [intros x [<-|[]]; reflexivity|].
+          right; left. exists r. split; [reflexivity|]. split; [exact Hr'|]. auto. }
+        pose proof (pr_once_s app e r (fit (if is_upload (mcode r) then mb1 r else mb2 r) (eszx e)) (is_upload (mcode r)) sent Hobs Hgd Hkey) as Hp.
+        destruct (process_received_s app e r _ (is_upload (mcode r)) sent) as [[e1 o] d].
+        apply (once_post_weaken _ _ _ _ F) in Hp; [|exact Hf3].
+        destruct o as [w|]; [|exact Hp].
+        match goal with |- context [start_sending ?a ?b ?c ?d ?f] =>
+          pose proof (start_sending_receiving a b c d f) as Hr'; destruct (start_sending a b c d f) as [e2 o2] end.
+        cbn [fst] in Hr'. eapply once_post_recv; [exact Hr'|exact Hp].
+  Qed.
 
   Lemma handle_once_pot app e r :
     is_observe_response r = false ->
@@ -1378,27 +1408,8 @@ Section System.
                match o with Out w => (e', w, d, 0) | Fail => (e', Some (entity_incomplete (mtok r)), d, 1) end) in
               once_post e e' (mtok r) (fb r) d).
     { assert (Hhr : let '(e', _, d) := handle_received app e r in once_post e e' (mtok r) (fb r) d).
-      { assert (Hf1 : (mcode r =? 0) || ((225 <=? mcode r) && (mcode r <=? 229)) = true -> fb r).
-        { intros Hs. left. unfold is_plain_code. rewrite Hs. reflexivity. }
-        assert (Hf2 : (mcode r =? GET) || (mcode r =? DELETE) = true -> fb r).
-        { intros Hs. left. unfold is_plain_code. rewrite <- orb_assoc, Hs. apply orb_true_r. }
-        assert (Hf3 : first_blk (blockopt (is_upload (mcode r)) r) -> fb r) by (intros Hs; right; exact Hs).
-        revert Hf1 Hf2 Hf3. generalize (fb r). intros F Hf1 Hf2 Hf3.
-        unfold handle_received.
-        destruct ((mcode r =? 0) || ((225 <=? mcode r) && (mcode r <=? 229))) eqn:Hsig.
-        { split; [reflexivity|]. split; [intros x [<-|[]]; reflexivity|]. right; left. exists r. auto. }
-        destruct ((mcode r =? GET) || (mcode r =? DELETE)) eqn:Hgd.
-        { match goal with |- context [start_sending ?a ?b ?c ?d ?f] =>
-            pose proof (start_sending_receiving a b c d f) as Hr'; destruct (start_sending a b c d f) as [e' o] end.
-          cbn [fst] in Hr'. split; [intros k _; rewrite Hr'; reflexivity|]. split; [intros x [<-|[]]; reflexivity|].
-          right; left. exists r. split; [reflexivity|]. split; [exact Hr'|]. auto. }
-        pose proof (pr_once app e r (fit (if is_upload (mcode r) then mb1 r else mb2 r) (eszx e)) (is_upload (mcode r)) Hobs Hgd Hkey) as Hp.
-        destruct (process_received app e r _ (is_upload (mcode r))) as [[e1 o] d].
-        apply (once_post_weaken _ _ _ _ F) in Hp; [|exact Hf3].
-        destruct o as [w|]; [|exact Hp].
-        match goal with |- context [start_sending ?a ?b ?c ?d ?f] =>
-          pose proof (start_sending_receiving a b c d f) as Hr'; destruct (start_sending a b c d f) as [e2 o2] end.
-        cbn [fst] in Hr'. eapply once_post_recv; [exact Hr'|exact Hp]. }
+      { pose proof (handle_received_once_s app e r (get_sent_request e (mtok r)) Hobs Hkey) as Hhr0.
+        exact Hhr0. }
       destruct (handle_received app e r) as [[e1 o] d]. destruct o; exact Hhr. }
     destruct (tget (sending e) (mtok r)) as [orig|]; [|exact Hrecv].
     destruct (wants_to_be_received r); [exact Hrecv|].
@@ -1773,12 +1784,12 @@ Section System.
 
   (* The whole property C04 (Spec.c04_ok: exact body, once, options, known token, Do
      returns with its response, no panic / hang marks) holds on the model's trace of
-     EVERY script, for every well-formed configuration in which no response to a
-     POST/PUT is block-wise *)
+     EVERY script, for every well-formed configuration (repaired: also when the response
+     to a POST/PUT is block-wise) *)
   Theorem exchange_c04_ok es :
-    Forall bump_ok es -> small_upload_responses es -> c04_ok c es (model_obs c es) = true.
+    Forall bump_ok es -> c04_ok c es (model_obs c es) = true.
   Proof.
-    intros Hb Hsmall. unfold c04_ok, c04_class.
+    intros Hb. unfold c04_ok, c04_class.
     assert (Hbad : first_class (map (fun o => if o_bad o =? 0 then 0%N else if o_bad o =? 1 then 6%N else 7%N) (model_obs c es)) = 0%N).
     { apply first_class_zero. apply Forall_forall. intros x Hx. apply in_map_iff in Hx. destruct Hx as [o [<- Ho]].
       unfold model_obs in Ho. apply in_map_iff in Ho. destruct Ho as [mo [<- _]]. reflexivity. }
@@ -1786,7 +1797,7 @@ Section System.
     assert (Hdc : first_class (flat_map (fun o => map (delivery_class c es (o_side o)) (o_deliv o)) (model_obs c es)) = 0%N).
     { apply first_class_zero. apply Forall_forall. intros x Hx. apply in_flat_map in Hx. destruct Hx as [o [Ho Hx]].
       apply in_map_iff in Hx. destruct Hx as [d [<- Hd]].
-      pose proof (exchange_safety_spec_exact es Hb Hsmall) as Hs. rewrite Forall_forall in Hs. specialize (Hs o Ho).
+      pose proof (exchange_safety_spec es Hb) as Hs. rewrite Forall_forall in Hs. specialize (Hs o Ho).
       rewrite Forall_forall in Hs. exact (Hs d Hd). }
     rewrite Hdc. cbn [N.eqb negb]. rewrite (exchange_once es Hb). cbn [negb].
     unfold model_obs. rewrite run_ret; [reflexivity|]. intros i t [].
@@ -1875,7 +1886,7 @@ Section System.
     (o = Fail /\ d = []) \/ (exists x, d = [x] /\ o = Out (app (mtok r) x)) \/
     (exists sm, d = [] /\ o = Out (Some sm) /\ mbody sm = []).
   Proof.
-    unfold process_received.
+    unfold process_received, process_received_s.
     destruct ((mcode r =? GET) || (mcode r =? DELETE)); [right; left; exists r; auto|].
     destruct (if isb1 then mb1 r else mb2 r) as [b|].
     2: { destruct (isb1 && _); [left; auto|right; left; exists r; auto]. }
@@ -1887,6 +1898,7 @@ Section System.
     all: match goal with |- context [reasm ?a ?b0 ?c1] => destruct (reasm a b0 c1) as [cm' appended] end.
     all: match goal with |- context [if ?cnd then _ else _] => destruct cnd end.
     all: try (right; left; eexists; split; reflexivity).
+    all: cbv zeta; match goal with |- context [refuse_restart ?a ?n ?q] => destruct (refuse_restart a n q) end; [left; auto|].
     all: right; right; eexists; split; [reflexivity|split; [reflexivity|]].
     all: destruct isb1; try reflexivity; destruct (get_sent_request e (mtok r)); reflexivity.
   Qed.
@@ -1918,7 +1930,7 @@ Section System.
               (let '(e', o, d) := handle_received app e r in
                match o with Out w => (e', w, d, 0) | Fail => (e', Some (entity_incomplete (mtok r)), d, 1) end) in
               nerr <> 0 -> d = [] \/ exists x wm, d = [x] /\ app (mtok r) x = Some wm /\ 16 <= blen (mbody wm)).
-    { unfold handle_received.
+    { unfold handle_received, handle_received_s; fold_pr.
       destruct ((mcode r =? 0) || ((225 <=? mcode r) && (mcode r <=? 229))); [intros Hn; contradiction Hn; reflexivity|].
       destruct ((mcode r =? GET) || (mcode r =? DELETE)).
       - assert (Hfit : 0 <= fit (mb2 r) (eszx e) <= 7) by (apply fit_range; [exact Hsz|intros b H; apply Hb; right; exact H]).
@@ -2013,7 +2025,7 @@ Section System.
       let '(e2', o2, d2) := process_received app e2 r mx isb1 in
       o1 = o2 /\ d1 = d2 /\ agree_at (mtok r) e1' e2' /\ (forall wm, o1 = Out (Some wm) -> mtok wm = mtok r).
     Proof.
-      intros Hobs Hag. pose proof Hag as (H1 & H2 & H3 & H4 & H5). unfold process_received.
+      intros Hobs Hag. pose proof Hag as (H1 & H2 & H3 & H4 & H5). unfold process_received, process_received_s.
       destruct ((mcode r =? GET) || (mcode r =? DELETE)).
       { split; [reflexivity|]. split; [reflexivity|]. split; [exact Hag|]. intros wm E. injection E as E. eapply Happ; exact E. }
       destruct (if isb1 then mb1 r else mb2 r) as [b|].
@@ -2045,9 +2057,10 @@ Section System.
       all: match goal with |- context [reasm ?a ?b0 ?c1] => destruct (reasm a b0 c1) as [cm' appended] end.
       all: match goal with |- context [if ?cnd then _ else _] => destruct cnd end.
       all: try (destruct (mtok cm' =? mtok r)).
+      all: cbv zeta; try match goal with |- context [refuse_restart ?a ?n ?q] => destruct (refuse_restart a n q) end.
       all: cbn [sending receiving with_sending with_receiving].
       all: split; [reflexivity|]; split; [reflexivity|]; split; [first [apply Hput|apply Hdel|apply Hdel2]|].
-      all: intros wm E; injection E as E.
+      all: intros wm E; try discriminate E; injection E as E.
       all: try (eapply Happ; exact E).
       all: subst wm; destruct isb1; try reflexivity; destruct (get_sent_request e1 (mtok r)); reflexivity.
     Qed.
@@ -2062,7 +2075,7 @@ Section System.
       intros Hobs Hag Hkey. pose proof Hag as (H1 & H2 & H3 & H4 & H5). unfold handle. rewrite <- H4.
       assert (Hhr : let '(e1', o1, d1) := handle_received app e1 r in let '(e2', o2, d2) := handle_received app e2 r in
                     o1 = o2 /\ d1 = d2 /\ agree_at (mtok r) e1' e2' /\ (forall sm, o1 = Out (Some sm) -> mtok sm = mtok r)).
-      { unfold handle_received. rewrite <- H1, <- H2.
+      { unfold handle_received, handle_received_s; fold_pr. rewrite <- H1, <- H2.
         destruct ((mcode r =? 0) || ((225 <=? mcode r) && (mcode r <=? 229))).
         { split; [reflexivity|]. split; [reflexivity|]. split; [exact Hag|]. intros sm E. injection E as E. eapply Happ; exact E. }
         destruct ((mcode r =? GET) || (mcode r =? DELETE)).
@@ -2103,7 +2116,7 @@ Section System.
 
   Lemma process_received_cnt X app e r mx isb1 : cnt_ok X e -> cnt_ok X (fst (fst (process_received app e r mx isb1))).
   Proof.
-    intros [Hf [Hh Hx]]. unfold process_received, cnt_ok.
+    intros [Hf [Hh Hx]]. unfold process_received, process_received_s, cnt_ok.
     destruct ((mcode r =? GET) || (mcode r =? DELETE)); [auto|].
     destruct (if isb1 then mb1 r else mb2 r) as [b|]; [|destruct (isb1 && _); auto].
     destruct (if isb1 then false else match get_sent_request e (mtok r) with None => true | Some _ => false end); [auto|].
@@ -2116,6 +2129,7 @@ Section System.
     all: match goal with |- context [reasm ?a ?b0 ?c1] => destruct (reasm a b0 c1) as [cm' appended] end.
     all: match goal with |- context [if ?cnd then _ else _] => destruct cnd end.
     all: try (destruct (mtok cm' =? key)).
+    all: cbv zeta; try match goal with |- context [refuse_restart ?a ?n ?q] => destruct (refuse_restart a n q) end.
     all: exact Hk.
   Qed.
 
@@ -2125,7 +2139,7 @@ Section System.
     assert (Hcs : forall e0, cnt_ok X e0 -> forall e1, efresh e1 = efresh e0 -> ehid e1 = ehid e0 -> eoutside e1 = eoutside e0 -> cnt_ok X e1).
     { intros e0 H0 e1 H1 H2 H3. unfold cnt_ok. rewrite H1, H2, H3. exact H0. }
     assert (Hhr : cnt_ok X (fst (fst (handle_received app e r)))).
-    { unfold handle_received.
+    { unfold handle_received, handle_received_s; fold_pr.
       destruct ((mcode r =? 0) || ((225 <=? mcode r) && (mcode r <=? 229))); [exact Hc|].
       destruct ((mcode r =? GET) || (mcode r =? DELETE)).
       - match goal with |- context [start_sending ?a ?b ?c0 ?d ?f] =>
@@ -2766,19 +2780,34 @@ Section System.
 End System.
 
 (* ------------------------------------------------------------------------ *)
-(* 14. the unrestricted statement is false: the finding                       *)
-(* A POST whose response is block-wise.  The client ends up asking for block 0 *)
-(* of the response again (witness 1: an old response block meets a new Do that *)
-(* reuses the token; witness 2: the resource changed, the ETag differs, the    *)
-(* reassembly restarts) with a request that has the code and options of the    *)
-(* POST but no body; a server that no longer holds the response hands that     *)
-(* body-less POST to its application.                                          *)
+(* 14. the histories of the repaired finding                                   *)
+(* A POST whose response is block-wise.  Before the repair the client ended up *)
+(* asking for block 0 of the response again (witness 1: an old response block  *)
+(* meets a new Do that reuses the token; witness 2: the resource changed, the   *)
+(* ETag differs, the reassembly restarts) with a request that had the code and *)
+(* options of the POST but no body, and a server that no longer held the       *)
+(* response handed that body-less POST to its application (c04_class = 1 on    *)
+(* both histories).  Repaired: at that event the client reports an error,      *)
+(* releases the reassembly entry, answers 4.08 and hands nothing over; the      *)
+(* whole property holds on both histories (and on all others: exchange_c04_ok).*)
 Definition refute_cfg1 : cfg := Cfg 0 1152 0 1152 [X 0 2 7 0 5 5 None] [R 11 40 false 42] [].
 Definition refute_es1 : list ev :=
   [Start 0; Deliver 0; Deliver 0; Deliver 0; Deliver 0; Deliver 0; Deliver 0; Start 0; Replay 3; Deliver 1]%nat.
 Definition refute_cfg2 : cfg := Cfg 0 1152 0 1152 [X 0 2 7 0 5 5 None] [R 11 20 true 42] [].
 Definition refute_es2 : list ev :=
   [Start 0; Deliver 0; Deliver 0; Deliver 0; Bump 0; Replay 0; Replay 2; Deliver 2; Deliver 2]%nat.
+
+(* the n-th event is a refusal at A: error callback, nothing handed over, 4.08 sent, no reassembly entry left *)
+Definition refused_at (os : list obs) (n : nat) : Prop :=
+  match nth_error os n with
+  | Some o => o_side o = 0 /\ o_err o = 1 /\ o_deliv o = [] /\
+              (exists m, o_wire o = Some (true, m) /\ pcode m = Incomplete /\ plen m = 0) /\
+              nth 1 (o_sizes o) (-1) = 0
+  | None => False
+  end.
+(* B's application is never handed a request without the body A's application supplied *)
+Definition no_empty_request (os : list obs) : Prop :=
+  Forall (fun o => o_side o = 1 -> Forall (fun d => is_request (pcode d) = true -> plen d = 5) (o_deliv o)) os.
 
 Lemma one_exch_wf sA mA sB mB x r :
   0 <= sA <= 7 -> 0 <= sB <= 7 -> 0 <= mA -> 0 <= mB ->
@@ -2793,14 +2822,24 @@ Proof.
   - intros y [<-|[]]. assumption.
 Qed.
 
-Theorem exchange_safety_unrestricted_refuted :
+Theorem restart_refused_on_witnesses :
   (cfg_wf refute_cfg1 /\ Forall (bump_ok refute_cfg1) refute_es1 /\
-   c04_class refute_cfg1 refute_es1 (model_obs refute_cfg1 refute_es1) = 1%N) /\
+   c04_class refute_cfg1 refute_es1 (model_obs refute_cfg1 refute_es1) = 0%N /\
+   refused_at (model_obs refute_cfg1 refute_es1) 8 /\ no_empty_request (model_obs refute_cfg1 refute_es1)) /\
   (cfg_wf refute_cfg2 /\ Forall (bump_ok refute_cfg2) refute_es2 /\
-   c04_class refute_cfg2 refute_es2 (model_obs refute_cfg2 refute_es2) = 1%N).
+   c04_class refute_cfg2 refute_es2 (model_obs refute_cfg2 refute_es2) = 0%N /\
+   refused_at (model_obs refute_cfg2 refute_es2) 7 /\ no_empty_request (model_obs refute_cfg2 refute_es2)).
 Proof.
+  assert (Hne : forall os, forallb (fun o => negb (o_side o =? 1) ||
+                  forallb (fun d => negb (is_request (pcode d)) || (plen d =? 5)) (o_deliv o)) os = true -> no_empty_request os).
+  { intros os H. apply Forall_forall. intros o Ho. rewrite forallb_forall in H. specialize (H o Ho).
+    intros Hside. rewrite Hside in H. change (1 =? 1) with true in H. cbn [negb orb] in H. apply Forall_forall. intros d Hd Hreq.
+    rewrite forallb_forall in H. specialize (H d Hd). rewrite Hreq in H. cbn [negb orb] in H. apply Z.eqb_eq. exact H. }
   split; (split; [apply one_exch_wf; cbn; unfold GET, DELETE, FRESH; try lia; try (intros; discriminate); auto|]).
-  - split; [repeat constructor|vm_compute; reflexivity].
-  - split; [|vm_compute; reflexivity].
-    repeat (constructor; try exact I). cbn. intros r E. destruct (Z.to_nat 0) eqn:Z0; cbn in E; [injection E as <-; reflexivity|discriminate].
+  - split; [repeat constructor|]. split; [vm_compute; reflexivity|].
+    split; [vm_compute; repeat split; eexists; repeat split|apply Hne; vm_compute; reflexivity].
+  - split.
+    { repeat (constructor; try exact I). cbn. intros r E. destruct (Z.to_nat 0) eqn:Z0; cbn in E; [injection E as <-; reflexivity|discriminate]. }
+    split; [vm_compute; reflexivity|].
+    split; [vm_compute; repeat split; eexists; repeat split|apply Hne; vm_compute; reflexivity].
 Qed.
